@@ -6,12 +6,16 @@ from lib import vf
 RULE_GRID = ("query objects run through the real apply_input_plugins with the grid_search plugin built by "
              "CompassAppBuilder (1 or 2 times in the chain): deterministic families first (0-5 fields all of one option; "
              "a one-option field at every position among longer ones; object options overwriting a base field or another "
-             "field's name; scalar-only/empty sections; every key order; rejected sections; non-object queries), then random "
-             "queries (1-5 array fields of 1-6 options, scalars/objects/mixtures, extra fields, name clashes). "
-             "I = produced queries in order, objects key-sorted; M = Coq model GS.run. "
+             "field's name; scalar-only/empty sections; every key order; rejected sections; non-object queries; extra fields "
+             "named like the grid key (grid_search_id, _grid_search, GRID_SEARCH, grid ...); plugin chains "
+             "[grid_search, stub plugin adding a grid section to the queries matching a predicate, grid_search, ...] so that "
+             "multi-element query states with the expanding element at any position reach json_array_op / flatten), then "
+             "random queries (1-5 array fields of 1-6 options, scalars/objects/mixtures, extra fields incl. grid-key-like "
+             "names, name clashes; 1 in 5 a random 2-5 plugin chain with the stub). "
+             "I = produced queries in order, objects key-sorted; M = Coq model GS.run_stages. "
              "non-trivial = accepted expansion with >=1 array field and (>=2 combinations or an object option); distinct by query text")
-RULE_SET = ("the same cases; I = produced queries as a sorted list of texts (a multiset), S = specification GS.spec "
-            "(Cartesian product built by direct recursion, no MultiSet, no indices) sorted by the verified stdlib merge sort, "
+RULE_SET = ("the same cases; I = produced queries as a sorted list of texts (a multiset), S = specification GS.spec_stages "
+            "(per grid stage every query replaced by its Cartesian product built by direct recursion, no MultiSet, no indices) sorted by the verified stdlib merge sort, "
             "M = the model's result sorted; cases outside the property's domain (rejected sections, non-object queries) "
             "print S = unspecified and are compared with M only")
 
